@@ -209,7 +209,36 @@ def _covers(guard_sets, cond):
     return False
 
 
-def codefinition(ctx, sm: SystemModel, rule, family):
+def internal_calls(ctx, sm: SystemModel, rule, family):
+    """Calls `self.m(...)` between System methods conform to System.m's signature."""
+    rep = ctx.rep
+    for mname, fn in sm.system.methods.items():
+        for c in ast.walk(fn):
+            if isinstance(c, ast.Call) and isinstance(c.func, ast.Attribute) and isinstance(c.func.value, ast.Name) and c.func.value.id == "self" \
+                    and c.func.attr in sm.system.methods:
+                callee = sm.system.methods[c.func.attr]
+                if not family(mname, c.func.attr):
+                    continue
+                construct = f"{SYS}:System.{mname}"
+                mn, mx, kws, haskw = arity(callee)
+                npos = len(c.args)
+                star = any(isinstance(a, ast.Starred) for a in c.args) or any(k.arg is None for k in c.keywords)
+                if star:
+                    rep.ok(rule, construct, f"{norm_src(c)} (forwarded *args/**kwargs)", trivial=True)
+                    continue
+                given_kw = [k.arg for k in c.keywords]
+                pos_names = [a.arg for a in callee.args.posonlyargs + callee.args.args][1:]
+                missing = [p for p in pos_names[npos:mn - 1] if p not in given_kw]
+                bad_kw = [k for k in given_kw if k not in kws and not haskw]
+                if (mx is not None and npos > mx - 1) or missing or bad_kw:
+                    why = (f"unknown keyword(s) {bad_kw}" if bad_kw else (f"missing argument(s) {missing}" if missing else "too many positional arguments"))
+                    rep.bad(rule, construct, c, f"call does not match System.{c.func.attr}{norm_src(callee.args)!r}: {why} (TypeError on every call)",
+                            f"{SYS}:{c.lineno}")
+                else:
+                    rep.ok(rule, construct, f"{norm_src(c)} matches System.{c.func.attr}({norm_src(callee.args)})")
+
+
+def codefinition(ctx, sm: SystemModel, rule, family, require_live=True):
     """For every dispatch (p -> m) selected by `family(p, m)` and every class registered under p,
     m must be provided (or be an explicit `raise NotImplementedError`) with an arity accepting the call."""
     rep = ctx.rep
@@ -219,7 +248,7 @@ def codefinition(ctx, sm: SystemModel, rule, family):
     for (sysm, p, m, call) in sm.dispatch_table():
         if not family(p, m):
             continue
-        if sysm not in live:
+        if require_live and sysm not in live:
             rep.note(f"{rule}: System.{sysm} is referenced by no solver/utility code; its dispatch creates no obligation")
             continue
         table.append((sysm, p, m, call))
